@@ -35,7 +35,7 @@ S["C17"] = dict(title="In-flight packet identifiers unique and bounded; excess g
 S["C13"] = dict(title="Hostile broker input: no panic, reset on violation, no forged progress", technique=TECH+"; the inbound packet is an arbitrary buffer served through the real bufio.Reader", harnesses=[
     H("verifH_C13_header", "L13.a remaining-length decoding of 1+5 arbitrary bytes vs the specification's algorithm", reach=("malformed","wellformed-length")),
     H("verifH_C13_packet", "L13.b one packet of arbitrary type/flags/body from an INV state against a shadow model of legitimate steps", T({"W":1,"maxbody":5}), T({"W":2,"maxbody":7}, time_sec=1500), ("violation","legit-publish","legit-ack","legit-pubrel","legit-suback","legit-unsuback","legit-pingresp","violation-suback","legit-duplicate")),
-    H("verifH_C06_stream", "L13.d waiting discipline: with PauseTimeout set every read of an incomplete packet and of a BigMessage payload happens under an armed read deadline", T({"packets":1,"cuts":1,"expiries":0,"big":1}, time_sec=600), T({"packets":1,"cuts":2,"expiries":1,"big":1}, time_sec=2400), ("big-read","stream-end")),
+    H("verifH_C06_stream", "L13.d waiting discipline: with PauseTimeout set every read of an incomplete packet and of a BigMessage payload happens under an armed read deadline", T({"packets":1,"cuts":1,"expiries":0,"big":1,"long":1}, time_sec=600), T({"packets":1,"cuts":2,"expiries":1,"big":1,"long":1}, time_sec=2400), ("big-read","stream-end")),
   ],
   assumptions=_outasm+["bufio.Reader is executed from SSA with a 16-byte buffer (readBufSize scaled down); the code compares sizes only with readBufSize"],
   bounds={"quick":"one inbound packet per step, body <= 5 symbolic bytes, W<=1 per outbound run","thorough":"body <= 7 bytes, W<=2"},
